@@ -236,6 +236,10 @@ func (qc QuorumCert) ToBytes() []byte {
 	b := qc.view.ToBytes()
 	b = append(b, qc.hash[:]...)
 	if qc.signature != nil {
+		// bind the identities of the signers: the signature bytes alone do not name them
+		qc.signature.Participants().ForEach(func(id ID) {
+			b = append(b, id.ToBytes()...)
+		})
 		b = append(b, qc.signature.ToBytes()...)
 	}
 	return b
